@@ -48,7 +48,7 @@ func checkMaxDiffWatermark(c *core.Ctx, rule string) {
 	}
 	T := "record.Values[m.timeFieldIndex].Time"
 	// the rounded candidate: whatever expression builds it from the record's time and the resolution is named ROUNDED
-	// here and judged separately (ROUND below): time.Unix(0, f(UnixNano(T), resolution)) or T.Truncate(resolution)
+	// here and judged separately (ROUND below): time.Unix(0, f(UnixNano(T), resolution)); T.Truncate(resolution) is recognised and rejected (other origin)
 	R := "ROUNDED"
 	roundExprs := map[string]token.Pos{}
 	for _, rel := range []absint.Rel{absint.LT, absint.EQ, absint.GT} {
@@ -147,7 +147,7 @@ func checkMaxDiffWatermark(c *core.Ctx, rule string) {
 	for expr, pos := range roundExprs {
 		rkey := key + "/rounding"
 		if strings.HasPrefix(expr, "TRUNCATE(") {
-			c.Decide(expr == "TRUNCATE(resolution.Duration)", rule, rkey, pos, 1, "time.Truncate rounds down for every time", "the time must be truncated to the resolution; it is truncated to "+expr)
+			c.Bad(rule, rkey, pos, 1, "time.Truncate rounds down to multiples of the duration counted from January 1 of year 1, not from the Unix epoch the generator counts from: the two origins are 719162 days apart, so for a resolution that does not divide a day (7s, 11s, 7m) the buckets shift, watermarks are emitted at other records and other records are dropped as late")
 			continue
 		}
 		ok, cases, why := isFloorToMultiple(expr, "time.Time.UnixNano("+T+")", "resolution.Duration")
